@@ -31,7 +31,7 @@ type trialResult struct {
 
 // runPoolTrial: `n` workers all kept busy, `k` more tasks submitted with SubmitWait (they queue), then
 // `action` ("stop", "grow", "shrink", "stop+submit") while the blockers are released.
-func runPoolTrial(n, k int, action string, rng *rand.Rand) trialResult {
+func runPoolTrial(n, k int, action string, rng *rand.Rand, viaSubmitWait bool) trialResult {
 	owner, err := absnfs.New(NewRefFS(), absnfs.ExportOptions{MaxWorkers: 1})
 	must(err)
 	defer owner.Close()
@@ -80,13 +80,40 @@ func runPoolTrial(n, k int, action string, rng *rand.Rand) trialResult {
 		wg.Add(1)
 		go func() {
 			defer wg.Done()
-			ch := p.Submit(func() interface{} {
+			task := func() interface{} {
 				done := track()
 				defer done()
 				atomic.AddInt32(&execCount[i], 1)
 				time.Sleep(naps[i])
 				return i + 1000
-			})
+			}
+			if viaSubmitWait {
+				// SubmitWait (what ExecuteWithWorker calls): ok=false means "not executed, run it yourself"
+				accepted[i] = true
+				type wr struct {
+					v  interface{}
+					ok bool
+				}
+				resc := make(chan wr, 1)
+				go func() { v, ok := p.SubmitWait(task); resc <- wr{v, ok} }()
+				time.Sleep(300 * time.Microsecond) // let the task reach the queue before the action starts
+				queued <- struct{}{}
+				select {
+				case x := <-resc:
+					switch {
+					case !x.ok:
+						outcomes[i] = "told"
+					case x.v == nil:
+						outcomes[i] = "nil"
+					default:
+						outcomes[i] = "exec"
+					}
+				case <-time.After(1500 * time.Millisecond):
+					outcomes[i] = "blocked"
+				}
+				return
+			}
+			ch := p.Submit(task)
 			queued <- struct{}{}
 			if ch == nil {
 				return // not accepted: the caller would run it itself
@@ -161,7 +188,7 @@ func runPoolTrial(n, k int, action string, rng *rand.Rand) trialResult {
 }
 
 func checkC20(r *Result, rng *rand.Rand, thorough bool) {
-	r.Rule = "trials on the real WorkerPool: n in {1,2,4} workers all busy, k in {1..2n+1} further tasks submitted (queue partially full, full, overfull), then Stop / Resize(grow) / Resize(shrink) while the busy tasks are released at a random instant; per accepted task the observed outcome (executed once+delivered / told not executed / blocked > 1.5 s / nil result / executed twice) must be admitted by the model; peak concurrency is measured; non-trivial = at least one task was queued when the action started; distinct = distinct (n,k,action,outcome vector)"
+	r.Rule = "trials on the real WorkerPool: n in {1,2,4} workers all busy, k in {1..2n+1} further tasks submitted (alternately through Submit + result channel and through SubmitWait, the call ExecuteWithWorker makes; queue partially full, full, overfull), then Stop / Resize(grow) / Resize(shrink) while the busy tasks are released at a random instant; per accepted task the observed outcome (executed once+delivered / told not executed / blocked > 1.5 s / nil result / executed twice) must be admitted by the model; peak concurrency is measured; non-trivial = at least one task was queued when the action started; distinct = distinct (n,k,action,outcome vector)"
 	trials := 40
 	if thorough {
 		trials = 600
@@ -172,8 +199,9 @@ func checkC20(r *Result, rng *rand.Rand, thorough bool) {
 		n := []int{1, 2, 4}[rng.Intn(3)]
 		k := 1 + rng.Intn(2*n+1)
 		action := []string{"stop", "stop", "grow", "shrink"}[rng.Intn(4)]
-		tr := runPoolTrial(n, k, action, rng)
-		key := fmt.Sprintf("n=%d k=%d %s %v", n, k, action, tr.outcomes)
+		via := i%2 == 1
+		tr := runPoolTrial(n, k, action, rng, via)
+		key := fmt.Sprintf("n=%d k=%d %s submitwait=%v %v", n, k, action, via, tr.outcomes)
 		r.noteCase(key, len(tr.outcomes) > 0)
 		r.count(action)
 		if i < 3 {
